@@ -44,6 +44,12 @@ func configs() []Cfg {
 		for _, tr := range []string{tTCP, tUDP} {
 			out = append(out, Cfg{Dir: dirStream, Rd: tr, Rd2: tr, Shape: sh, Secure: true})
 		}
+		if sh == "2m" {
+			// the tunnels under rtsps (https / wss carriers, SRTP inside)
+			for _, tr := range []string{tHTTP, tWS} {
+				out = append(out, Cfg{Dir: dirStream, Rd: tr, Rd2: tr, Shape: sh, Secure: true})
+			}
+		}
 		for _, tr := range transports {
 			out = append(out, Cfg{Dir: dirRelay, Pub: tr, Rd: tr, Rd2: other(tr), Shape: sh})
 		}
@@ -448,7 +454,7 @@ func main() {
 	} else {
 		wsText = "all words of length 1..4 over the first 3 letters (always) and over the first 4 letters (budget permitting)"
 	}
-	run.Rule(fmt.Sprintf("REAL Server/ServerStream/Client on memnet under virtual time; the harness serialises its operations (waits for every response / delivery barrier). Configurations (%d): direction {stream-to-reader: ServerStream.WritePacketRTP; relay: Client.WritePacketRTP -> record session -> sysx relay handler -> ServerStream.WritePacketRTP} x transport of readers/publisher {udp, tcp, http-tunnel, ws-tunnel} (relay: same transport on both sides, plus udp->tcp and tcp->udp) x shape {1m1f: H264/96; 2m: H264/96 + Opus/97; 1m2f: one media with H264/96 + VP8/97}, plus rtsps+SRTP for tcp and udp. "+
+	run.Rule(fmt.Sprintf("REAL Server/ServerStream/Client on memnet under virtual time; the harness serialises its operations (waits for every response / delivery barrier). Configurations (%d): direction {stream-to-reader: ServerStream.WritePacketRTP; relay: Client.WritePacketRTP -> record session -> sysx relay handler -> ServerStream.WritePacketRTP} x transport of readers/publisher {udp, tcp, http-tunnel, ws-tunnel} (relay: same transport on both sides, plus udp->tcp and tcp->udp) x shape {1m1f: H264/96; 2m: H264/96 + Opus/97; 1m2f: one media with H264/96 + VP8/97}, plus rtsps+SRTP for tcp and udp and, for shape 2m, for the two tunnels. "+
 		"Part 1 (seq): per configuration %s of the alphabet [%s] (the letter set is extended by the last letter, a sequence-number jump of +32768, when every transport is reliable); one always-on reader; words run in batches of 120 in one world with a delivery barrier after each word; sequence numbers consecutive from {0, 65534, 65531} per batch (reliable transports: every word restarts at 0 or 65534, i.e. an arbitrary jump between words). "+
 		"Part 2 (place): per configuration the fixed packet sequence [%s] with ALL placements (7 slots, non-decreasing) of the event scripts of one reader {%s} (j join, p PAUSE, r re-PLAY, t TEARDOWN, c abrupt close of the connection); two readers: scripts {%s} x {%s} at all placements - always: on stream-to-reader/tcp and relay/tcp>tcp of shape 2m one reader always on and the other running every placement (both on tcp); budget permitting: the full product per configuration (reader 1 on the configuration's second transport), quick: the two tcp configurations of shape 2m, thorough: all 14 configurations of shape 2m then tcp and udp of shape 1m2f. A fresh world per case, start sequence number alternating 0/65534 (TLS: 0). "+
 		"Part 3: one case per TLS configuration with a reader joining exactly at the sequence-number wrap. Part 4 (report only): PAUSE/TEARDOWN right after the six packets without barrier. "+
